@@ -1038,6 +1038,9 @@ class AirTouch5(pyairtouch.api.AirTouch):
                 self._state == _AirTouchState.INIT_AC_STATUS
             ):
                 await self._process_ac_status_message(ac_statuses)
+                if self._state != _AirTouchState.INIT_AC_STATUS:
+                    # shutdown() was called while the status was being processed.
+                    return
                 # Move to the next state
                 self._state = _AirTouchState.INIT_AC_TIMER_STATUS
                 ac_timer_status_request = ControlStatusMessage(
@@ -1052,6 +1055,9 @@ class AirTouch5(pyairtouch.api.AirTouch):
                 ac_timer_status_msg.AcTimerStatusMessage(ac_timer_statuses)
             ) if (self._state == _AirTouchState.INIT_AC_TIMER_STATUS):
                 await self._process_ac_timer_status_message(ac_timer_statuses)
+                if self._state != _AirTouchState.INIT_AC_TIMER_STATUS:
+                    # shutdown() was called while the status was being processed.
+                    return
                 # Move to the next state
                 self._state = _AirTouchState.INIT_ZONE_STATUS
                 zone_status_request = ControlStatusMessage(
@@ -1066,6 +1072,9 @@ class AirTouch5(pyairtouch.api.AirTouch):
                 zone_status_msg.ZoneStatusMessage(zone_statuses)
             ) if self._state == _AirTouchState.INIT_ZONE_STATUS:
                 await self._process_zone_status_message(zone_statuses)
+                if self._state != _AirTouchState.INIT_ZONE_STATUS:
+                    # shutdown() was called while the status was being processed.
+                    return
                 # Move to the next state
                 self._state = _AirTouchState.CONNECTED
                 await self._heartbeat_manager.start()
